@@ -156,21 +156,25 @@ impl<T: Send> RendezvousSyncSender<T> {
   /// Converts this handle into an asynchronous [`RendezvousAsyncSender`]. Zero-cost; the
   /// original handle's `Drop` does not run.
   pub fn to_async(self) -> RendezvousAsyncSender<T> {
+    let closed = self.closed.load(Ordering::Relaxed);
     let shared = unsafe { std::ptr::read(&self.shared) };
     mem::forget(self);
     RendezvousAsyncSender {
       shared,
-      closed: AtomicBool::new(false),
+      closed: AtomicBool::new(closed),
     }
   }
 }
 
 impl<T: Send> Clone for RendezvousSyncSender<T> {
   fn clone(&self) -> Self {
-    self.shared.add_sender();
+    let closed = self.closed.load(Ordering::Relaxed);
+    if !closed {
+      self.shared.add_sender();
+    }
     RendezvousSyncSender {
       shared: Arc::clone(&self.shared),
-      closed: AtomicBool::new(false),
+      closed: AtomicBool::new(closed),
     }
   }
 }
@@ -255,21 +259,25 @@ impl<T: Send> RendezvousSyncReceiver<T> {
 
   /// Converts this handle into an asynchronous [`RendezvousAsyncReceiver`]. Zero-cost.
   pub fn to_async(self) -> RendezvousAsyncReceiver<T> {
+    let closed = self.closed.load(Ordering::Relaxed);
     let shared = unsafe { std::ptr::read(&self.shared) };
     mem::forget(self);
     RendezvousAsyncReceiver {
       shared,
-      closed: AtomicBool::new(false),
+      closed: AtomicBool::new(closed),
     }
   }
 }
 
 impl<T: Send> Clone for RendezvousSyncReceiver<T> {
   fn clone(&self) -> Self {
-    self.shared.add_receiver();
+    let closed = self.closed.load(Ordering::Relaxed);
+    if !closed {
+      self.shared.add_receiver();
+    }
     RendezvousSyncReceiver {
       shared: Arc::clone(&self.shared),
-      closed: AtomicBool::new(false),
+      closed: AtomicBool::new(closed),
     }
   }
 }
@@ -285,7 +293,7 @@ impl<T: Send> Drop for RendezvousSyncReceiver<T> {
 impl<T: Send> RendezvousAsyncSender<T> {
   /// Sends a value, resolving once a receiver takes it or the channel closes.
   pub fn send(&self, item: T) -> SendFuture<'_, T> {
-    SendFuture::new(&self.shared, item)
+    SendFuture::new(&self.shared, &self.closed, item)
   }
 
   /// Attempts to hand off to an already-waiting receiver without awaiting.
@@ -338,21 +346,25 @@ impl<T: Send> RendezvousAsyncSender<T> {
 
   /// Converts this handle into a synchronous [`RendezvousSyncSender`]. Zero-cost.
   pub fn to_sync(self) -> RendezvousSyncSender<T> {
+    let closed = self.closed.load(Ordering::Relaxed);
     let shared = unsafe { std::ptr::read(&self.shared) };
     mem::forget(self);
     RendezvousSyncSender {
       shared,
-      closed: AtomicBool::new(false),
+      closed: AtomicBool::new(closed),
     }
   }
 }
 
 impl<T: Send> Clone for RendezvousAsyncSender<T> {
   fn clone(&self) -> Self {
-    self.shared.add_sender();
+    let closed = self.closed.load(Ordering::Relaxed);
+    if !closed {
+      self.shared.add_sender();
+    }
     RendezvousAsyncSender {
       shared: Arc::clone(&self.shared),
-      closed: AtomicBool::new(false),
+      closed: AtomicBool::new(closed),
     }
   }
 }
@@ -369,7 +381,7 @@ impl<T: Send> RendezvousAsyncReceiver<T> {
   /// Receives a value, resolving once a sender hands one off or the channel
   /// disconnects.
   pub fn recv(&self) -> RecvFuture<'_, T> {
-    RecvFuture::new(&self.shared)
+    RecvFuture::new(&self.shared, &self.closed)
   }
 
   /// Attempts to take from an already-waiting sender without awaiting.
@@ -422,21 +434,25 @@ impl<T: Send> RendezvousAsyncReceiver<T> {
 
   /// Converts this handle into a synchronous [`RendezvousSyncReceiver`]. Zero-cost.
   pub fn to_sync(self) -> RendezvousSyncReceiver<T> {
+    let closed = self.closed.load(Ordering::Relaxed);
     let shared = unsafe { std::ptr::read(&self.shared) };
     mem::forget(self);
     RendezvousSyncReceiver {
       shared,
-      closed: AtomicBool::new(false),
+      closed: AtomicBool::new(closed),
     }
   }
 }
 
 impl<T: Send> Clone for RendezvousAsyncReceiver<T> {
   fn clone(&self) -> Self {
-    self.shared.add_receiver();
+    let closed = self.closed.load(Ordering::Relaxed);
+    if !closed {
+      self.shared.add_receiver();
+    }
     RendezvousAsyncReceiver {
       shared: Arc::clone(&self.shared),
-      closed: AtomicBool::new(false),
+      closed: AtomicBool::new(closed),
     }
   }
 }
@@ -458,6 +474,7 @@ impl<T: Send> Drop for RendezvousAsyncReceiver<T> {
 #[must_use = "futures do nothing unless you .await or poll them"]
 pub struct SendFuture<'a, T: Send> {
   shared: &'a Arc<MpmcRvShared<T>>,
+  closed: &'a AtomicBool,
   slot: Option<T>,
   state: AtomicU8,
   registered: bool,
@@ -465,9 +482,10 @@ pub struct SendFuture<'a, T: Send> {
 }
 
 impl<'a, T: Send> SendFuture<'a, T> {
-  fn new(shared: &'a Arc<MpmcRvShared<T>>, item: T) -> Self {
+  fn new(shared: &'a Arc<MpmcRvShared<T>>, closed: &'a AtomicBool, item: T) -> Self {
     Self {
       shared,
+      closed,
       slot: Some(item),
       state: AtomicU8::new(WAITING),
       registered: false,
@@ -483,6 +501,9 @@ impl<'a, T: Send> Future for SendFuture<'a, T> {
     let this = unsafe { self.get_unchecked_mut() };
     if this.slot.is_none() && !this.registered {
       return Poll::Ready(Ok(()));
+    }
+    if !this.registered && this.closed.load(Ordering::Relaxed) {
+      return Poll::Ready(Err(SendError::Closed));
     }
     this
       .shared
@@ -507,6 +528,7 @@ impl<'a, T: Send> Drop for SendFuture<'a, T> {
 #[must_use = "futures do nothing unless you .await or poll them"]
 pub struct RecvFuture<'a, T: Send> {
   shared: &'a Arc<MpmcRvShared<T>>,
+  closed: &'a AtomicBool,
   dest: Option<T>,
   state: AtomicU8,
   registered: bool,
@@ -514,9 +536,10 @@ pub struct RecvFuture<'a, T: Send> {
 }
 
 impl<'a, T: Send> RecvFuture<'a, T> {
-  fn new(shared: &'a Arc<MpmcRvShared<T>>) -> Self {
+  fn new(shared: &'a Arc<MpmcRvShared<T>>, closed: &'a AtomicBool) -> Self {
     Self {
       shared,
+      closed,
       dest: None,
       state: AtomicU8::new(WAITING),
       registered: false,
@@ -530,6 +553,9 @@ impl<'a, T: Send> Future for RecvFuture<'a, T> {
 
   fn poll(self: Pin<&mut Self>, cx: &mut Context<'_>) -> Poll<Self::Output> {
     let this = unsafe { self.get_unchecked_mut() };
+    if !this.registered && this.closed.load(Ordering::Relaxed) {
+      return Poll::Ready(Err(RecvError::Disconnected));
+    }
     this
       .shared
       .poll_recv(cx, &this.state, &mut this.dest, &mut this.registered)
